@@ -25,11 +25,13 @@ PLAN = {
 
 NOT_CLAIMED = {}
 
+PLAN["C04"]["side_checks"] = ["context_check.py"]
 PLAN["C04"].update({
     "level_text": "Proof: the scoping triples of run / context() / __enter__ / current_action are discharged for every previous context value, "
                   "every body behaviour (arbitrary exception class, generator close) and hence, by sequential composition, every nesting; "
                   "a bounded native driver replays nestings on the real code as cross-check.",
-    "level_note": "Trusted: ContextVar token semantics, the rely on application code (it leaves the current action as it found it), "
+    "level_note": "Trusted: ContextVar token semantics, the rely on application code (it leaves the current action as it found it; that it cannot clobber "
+                  "an enclosing block's token by entering the same action again is backed by the token-discipline side check in context_check.py), "
                   "encoding assumptions E1-E10; __exit__'s contract is part of C02/C03's function set.",
 })
 
@@ -246,4 +248,4 @@ plan("C01", "c01.py", "small logging programs (lanes/threads, every way of start
      "Trusted: as for C09 and C02; the JSON encoder/decoder (bounded differential in drivers/c10.py). The driver's 'odd' families (logging into a "
      "finished action, reserved field names, a reserved but unused position, schema-violating typed actions) are outside the statement, see "
      "known_findings.json.",
-     side_checks=["parser_check.py"], includes=["C04", "C03"])
+     side_checks=["parser_check.py", "context_check.py"], includes=["C04", "C03"])
